@@ -923,12 +923,39 @@ func c04r6(p *Program, r *Report) {
 	}
 	info := fi.Pkg.TypesInfo
 	var branch *ast.IfStmt
+	// the branch taken with skip-metadata: `if params.skipMeta` or `if useCached` with the local bound once to the
+	// flag; of several such branches (an early guard, then the one that installs the cached metadata) the one that
+	// assigns the iterator's metadata
+	isSkip := func(e ast.Expr) bool {
+		if id, ok := ast.Unparen(e).(*ast.Ident); ok {
+			if d := localDef(info, fi, id); d != nil {
+				e = d
+			}
+		}
+		return strings.HasSuffix(exprStr(e), ".skipMeta")
+	}
+	var cands []*ast.IfStmt
 	ast.Inspect(fi.Decl.Body, func(x ast.Node) bool {
-		if ifs, ok := x.(*ast.IfStmt); ok && strings.HasSuffix(exprStr(ifs.Cond), ".skipMeta") && branch == nil {
-			branch = ifs
+		if ifs, ok := x.(*ast.IfStmt); ok && isSkip(ifs.Cond) {
+			cands = append(cands, ifs)
 		}
 		return true
 	})
+	for _, c := range cands {
+		assigns := false
+		ast.Inspect(c.Body, func(x ast.Node) bool {
+			if as, ok := x.(*ast.AssignStmt); ok && len(as.Lhs) == 1 && strings.HasSuffix(exprStr(as.Lhs[0]), ".meta") {
+				assigns = true
+			}
+			return true
+		})
+		if assigns && branch == nil {
+			branch = c
+		}
+	}
+	if branch == nil && len(cands) > 0 {
+		branch = cands[0]
+	}
 	if branch == nil {
 		r.Unresolved("executeQuery: no branch on params.skipMeta")
 		return
